@@ -51,6 +51,7 @@ from pyimpspec.typing.helpers import (
 )
 from pyimpspec.data import DataSet
 from pyimpspec.analysis.utility import (
+    _calculate_pseudo_chisqr,
     _calculate_residuals,
     get_default_num_procs,
 )
@@ -425,6 +426,14 @@ def perform_zhit(
     X_fit -= offset
 
     Z_fit: ComplexImpedances = X_fit ** (-1 if admittance else 1)
+    if offset != 0.0:
+        # The candidates were ranked using the shifted admittances, but the
+        # reported value must correspond to the reported impedances/residuals
+        pseudo_chisqr = _calculate_pseudo_chisqr(
+            Z_exp=data.get_impedances(),
+            Z_fit=Z_fit,
+        )
+
     residuals: ComplexResiduals = _calculate_residuals(
         Z_exp=data.get_impedances(),
         Z_fit=Z_fit,
